@@ -34,6 +34,10 @@ def proj_c03(op, out):
 READS = ('read_string', 'read_stream', 'read_file', 'read_chunked', 'deepnest', 'read_stream_fail', 'read_file_ioerr', 'read_string_ioerr', 'read_stream_eagain')
 IOFAIL = ('read_stream_fail', 'read_file_ioerr', 'read_string_ioerr', 'read_stream_eagain')
 IO_ERR = '1 %s - 0' % b'file I/O error'.hex()
+# prefixes that end in the middle of a construct after a complete token: the parser must ask for more input, so the
+# failing read is reached and the I/O error is required although the prefix alone is rejected
+STRICT_PREFIXES = [b'a = 1;\nb = [ 1, 2,', b'a = ', b'g = {', b'x = (1, ', b'a = 1;\nb', b'l = ( { y = 2; }', b's = "abc" ']
+STRICT_IO = set(hexs(t) for t in STRICT_PREFIXES)
 
 def oracle_c03(ops, outs):
     for i, (o, r) in enumerate(zip(ops, outs)):
@@ -69,8 +73,9 @@ def oracle_c03(ops, outs):
                 if plain is None:
                     if outs[i + 1].split(' ')[0] != '2':
                         return i + 1, 'a read whose input stream failed left the error record %r' % outs[i + 1]
-                elif plain[0] == '1':
-                    return i + 1, 'the delivered prefix alone is accepted, so the failing read was reached, but the error record is %r, not the file I/O error' % outs[i + 1]
+                elif plain[0] == '1' or data in STRICT_IO:
+                    return i + 1, 'the delivered prefix %s, so the failing read was reached, but the error record is %r, not the file I/O error' % (
+                        'alone is accepted' if plain[0] == '1' else 'ends in the middle of a construct', outs[i + 1])
                 elif outs[i + 1] != plain[1]:
                     return i + 1, 'a read whose input stream failed left the error record %r: neither the file I/O error nor the record %r of the delivered prefix' % (outs[i + 1], plain[1])
         if w == 'battery':
@@ -249,6 +254,11 @@ def sess_iofail(texts):
                 out = impl.do('read_stream_fail %d %s' % ((0, 1, 7)[(n + c) % 3], H(t[:c])))
                 impl.do('errio'); impl.do('dump'); impl.do('battery')
                 k = 'iofail:stream:%s' % (out or '?').split(' ')[0][:12]; stats[k] = stats.get(k, 0) + 1
+        for t in STRICT_PREFIXES:
+            for ch in (0, 1, 7):
+                impl.do('init'); impl.do('read_stream ' + H(t)); impl.do('err'); impl.do('init')
+                out = impl.do('read_stream_fail %d %s' % (ch, H(t))); impl.do('errio'); impl.do('dump'); impl.do('battery')
+                k = 'iofail:mid-construct:%s' % (out or '?').split(' ')[0][:12]; stats[k] = stats.get(k, 0) + 1
         # a failure that looks transient (EAGAIN from a non-blocking descriptor) must fail too, not be retried for ever
         for t in (b'', b'a = 1;\n', b'a = (1, 2'):
             impl.do('init'); out = impl.do('read_stream_eagain ' + H(t)); impl.do('errio'); impl.do('dump'); impl.do('battery')
